@@ -197,6 +197,8 @@ func generateImpl(configArgs map[string]string) (*packaging.PackageInfo, []strin
 		return packageInfo, warnings, err
 	}
 
+	verifHook("after-validate")
+
 	if packageInfo.Cpp != nil && !packageInfo.Cpp.Disabled {
 		err = cpp.Generate(env, *packageInfo.Cpp)
 		if err != nil {
